@@ -30,6 +30,7 @@ ASSUMPTIONS = ["System V x86-64 calling convention", "assembler/linker preserve 
 RULES_DOC = dict(common.SHARED_DOC)
 RULES_DOC["R7"] = "= C03.R1: a join (and so a free of the descriptor and stack) returns only after it observed TERMINATED, i.e. after the target left its stack for good"
 RULES_DOC["R8"] = "= C12.R3: a unit that is suspending is not terminated (and freed) inside its suspend callback while its context is still linked for resumption"
+RULES_DOC["R12"] = "= C15.R7: when a local stack pool overflows, the buckets it keeps move to the lower slots and the returned ones are forgotten: a bucket that is both in the global pool and still referenced locally hands the same stack to two live ULTs"
 RULES_DOC["R11"] = "= C12.R4: a revived ULT's saved context is re-initialised BEFORE the unit is pushed: afterwards another stream may already have run it and saved a live context that the re-initialisation would wipe (the ULT restarts from the top of its stack)"
 RULES_DOC["R10"] = "= C11.R10: the in/out stream pointer of a blocking helper stays current: no stale copy of *pp_local is used after a call that may resume the caller on another stream, and such a call is not handed the address of a throw-away copy"
 RULES_DOC["R9"] = "= C11.R6: after a switch that may resume the caller on another stream, the caller's stream pointer is re-read before it is used or returned (a ULT never saves its context into another ULT's descriptor)"
@@ -684,3 +685,5 @@ def run(P, rep, tier):
     common.borrow(rep, P, C11.rule_R6, "R9")
     common.borrow(rep, P, C11.rule_R10, "R10")
     common.borrow(rep, P, C12.rule_R4, "R11")
+    from . import C15
+    common.borrow(rep, P, C15.rule_R7, "R12")
